@@ -134,7 +134,7 @@ def _merge(results):
     return total, list(uniq.values())
 
 
-def dfs(scenario, params, bound, *, jobs=16, split_depth=3, max_execs_per_job=None, chunk=250, pool=None):
+def dfs(scenario, params, bound, *, jobs=16, split_depth=3, max_execs_per_job=None, chunk=250, pool=None, cap=None, info=None):
     """Exhaustive bounded-preemption enumeration with dynamic work splitting over processes: a job explores at
     most `chunk` executions of its subtrees and hands the unexplored stack entries back as new jobs.
     Returns (executions, unique records)."""
@@ -148,7 +148,12 @@ def dfs(scenario, params, bound, *, jobs=16, split_depth=3, max_execs_per_job=No
         queue = [[[]]]  # list of stacks
         pending = []
         results = []
+        done_n = 0
         while queue or pending:
+            if cap is not None and done_n >= cap:
+                if info is not None:
+                    info["capped"] = True    # not exhaustive: the remaining subtrees are dropped
+                break
             while queue and len(pending) < 2 * jobs:
                 st = queue.pop()
                 pending.append(pool.apply_async(_dfs_job, ((scenario, params, bound, st, chunk),)))
@@ -160,6 +165,7 @@ def dfs(scenario, params, bound, *, jobs=16, split_depth=3, max_execs_per_job=No
             for p in done:
                 pending.remove(p)
                 n, recs, bad, left = p.get()
+                done_n += n
                 results.append((n, recs, bad))
                 if bad:
                     break
